@@ -23,6 +23,11 @@ pub open spec fn ts_sorted(s: Seq<RecordHeader>) -> bool {
     forall|i: int, j: int| 0 <= i <= j < s.len() ==> hdr_ts(s[i]) <= hdr_ts(s[j])
 }
 
+// representation invariant of the in-memory index: every key has versions, ascending by timestamp
+pub open spec fn index_wf(m: Map<Seq<u8>, Seq<RecordHeader>>) -> bool {
+    forall|k: Seq<u8>| #[trigger] m.contains_key(k) ==> m[k].len() > 0 && ts_sorted(m[k])
+}
+
 // std: slice::binary_search_by(|item| item.timestamp().cmp(&ts)).unwrap_or_else(|e| e)
 // (documented contract of binary_search_by on a slice sorted w.r.t. the comparator: Ok(i) is
 // *some* matching index, Err(i) is the insertion point; unwrap_or_else(|e| e) merges the two)
